@@ -1,13 +1,17 @@
 #!/bin/sh
-# run every seeded change of /verif/seeded against the checks of the properties named in its meta.json (first token(s) of "property");
-# evidence of these runs goes to /tmp (never into /verif/evidence); prints one line per (change, property)
+# run every seeded change of /verif/seeded against the checks of the properties named in its meta.json (first token(s) of "property").
+# The change is applied in a scratch worktree of /repo (never in /repo itself); evidence of these runs goes to /tmp (never into
+# /verif/evidence); prints one line per (change, property).   usage: regress_seeded.sh [name ...]
 cd /verif
-export VERIF_EVIDENCE_DIR=/tmp/t/evidence_mutants VERIF_BUILD_DIR=/tmp/t/build_regress; mkdir -p $VERIF_EVIDENCE_DIR
-for d in seeded/*/; do
-  n=$(basename $d)
+WT=/tmp/wt/regress
+export VERIF_EVIDENCE_DIR=/tmp/t/evidence_mutants VERIF_BUILD_DIR=/tmp/t/build_regress VERIF_REPO=$WT; mkdir -p $VERIF_EVIDENCE_DIR
+git -C /repo worktree remove --force $WT 2>/dev/null; git -C /repo worktree prune
+git -C /repo worktree add -q --detach $WT HEAD || exit 2
+NAMES="$@"; [ -z "$NAMES" ] && NAMES=$(ls seeded)
+for n in $NAMES; do
+  d=seeded/$n
   props=$(python3 -c "import json,re;print(' '.join(re.findall(r'C\d\d', json.load(open('$d/meta.json'))['property'])))")
-  if [ -n "$(git -C /repo status --porcelain -- src)" ]; then echo "repo dirty"; exit 2; fi
-  git -C /repo apply /verif/$d/patch.diff 2>/dev/null || { echo "$n: PATCH DOES NOT APPLY (tree changed by a later fix?)"; continue; }
+  git -C $WT checkout -q -- . ; git -C $WT apply /verif/$d/patch.diff 2>/dev/null || { echo "$n: PATCH DOES NOT APPLY (tree changed by a later fix?)"; continue; }
   for p in $props; do
     if python3 -c "import sys,json; sys.exit(0 if '$p' in [c['property_id'] for c in json.load(open('MANIFEST.json'))['checks']] else 1)"; then
       ./check $p > /tmp/t/regress_${n}_$p.out 2>&1; rc=$?
@@ -16,5 +20,5 @@ for d in seeded/*/; do
       echo "$n $p not-claimed"
     fi
   done
-  git -C /repo checkout -- .
 done
+git -C /repo worktree remove --force $WT; rm -rf /tmp/t/build_regress
